@@ -113,8 +113,8 @@ def check(ctx):
     par = pad.params
     ctx.need(len(par) == 4, '_process_args_dict signature changed: %s' % par)
     scf, uri, ad = par[1], par[2], par[3]
-    want = sorted(['[%s]' % scf, '[%s] + %s[%s]' % (scf, ad, uri)])
-    ctx.inst('R4', pad, 'args=[scf]+args_dict[uri]', rets == want, 'return values per path %s, expected %s' % (rets, want))
+    want = sorted(['[%s]' % scf, '[%s, *%s[%s]]' % (scf, ad, uri)])
+    ctx.inst('R4', pad, 'args=[scf]+args_dict[uri]', rets == want, 'return values per path %s, expected %s (the entry is appended with extend semantics: any sequence, not only a list)' % (rets, want))
     conds = sorted({tuple(p.cond_texts()) for p in pp})
     ctx.inst('R4', pad, 'args-dict-optional', conds == sorted([(ad,), ('not ' + ad,)]),
              'argument dictionary consulted iff given; path conditions %s' % (conds,))
@@ -169,8 +169,9 @@ def check(ctx):
             okc = isinstance(src, ast.Subscript) and norm(src.value) == 'reporter.errors'
         ctx.inst('R2', ps, 'raise-chained', okc, 'raise must chain an element of reporter.errors (`from`); found cause %s' % (norm(cause) if cause else None))
     # the only way to leave with the flag set is the raise: inspection's true edge leads to raise on all paths
-    tests = [n for n in g.nodes if n.kind == 'if' and 'is_error_reported' in norm(n.ast.test)]
-    ctx.need(len(tests) == 1, 'parallel_safe: expected one test of reporter.is_error_reported()')
+    tests = [n for n in g.nodes if n.kind == 'if' and 'is_error_reported' in norm(n.ast.test) and any(g.dominates(n, r) for r in raises)]
+    ctx.need(len(tests) >= 1, 'parallel_safe: no test of reporter.is_error_reported() guards the raise')
+    tests = tests[-1:]
     tedge = [e for e in tests[0].succ if e.label and e.label[0] == 'cond' and e.label[2] is True]
     p_ok = tedge and g.path_avoiding(tests[0], [g.exit], avoid=[], avoid_edges=[e for e in tests[0].succ if e not in tedge]) is None
     ctx.inst('R2', ps, 'reported-implies-raise', bool(p_ok), 'when an error was reported every path must raise')
@@ -206,6 +207,12 @@ def check(ctx):
              not any(isinstance(x, (ast.If, ast.Try)) for x in walk_own(re_.node)),
              'report_error must unconditionally append the error and set the flag that is_error_reported returns '
              '(flag stores: %d, appends: %d, matching returns: %d)' % (len(flag_true), len(app), len(r_ok)))
+    ri = rk.method('__init__') if rk.has('__init__') else None
+    inits = {norm(s_.targets[0]): norm(s_.value) for s_ in walk_own(ri.node) if isinstance(s_, ast.Assign)} if ri else {}
+    cls_level = sorted(k for k in rk.consts if ('self.' + k) in (lst_txt, flag))
+    ok_i = ri is not None and inits.get(lst_txt) in ('[]', 'list()') and (flag is None or inits.get(flag) == 'False') and not cls_level
+    ctx.inst('R2', (SW, 'Swarm.Reporter'), 'reporter-state-per-instance', ok_i,
+             'each Reporter must start with its own empty error list and cleared flag (assigned in __init__); class-level %s would be shared by every swarm action ever run' % cls_level)
     errp = rk.method('errors')
     lst_attr = norm(app[0].func.value) if app else None
     r2 = [s for s in walk_own(errp.node) if isinstance(s, ast.Return) and s.value is not None and norm(s.value) == lst_attr]
